@@ -45,7 +45,7 @@ Theorem C18_refuted_revert :
 Proof.
   exists {| f_moves := true; f_pcev := true; f_acc_hist := true; f_tx_hist := true; f_hash := true |}.
   exists [(10, {| o_in := ICreate [{| p_src := "world"; p_dst := "bob"; p_asset := "USD"; p_amt := 5 |}] (Some 50) "" [] [] false; o_ik := ""; o_dry := false |});
-          (20, {| o_in := IRevert 1 false false; o_ik := ""; o_dry := false |})].
+          (20, {| o_in := IRevert 1 false false []; o_ik := ""; o_dry := false |})].
   exists "bob". vm_compute. split.
   - eexists. split; [right; left; reflexivity|]. split; [reflexivity|]. left; reflexivity.
   - eexists. split; reflexivity.
